@@ -13,6 +13,7 @@
     (deflagrations/hybrids; that part integrates the shock ODE and is compared numerically
     by tools/props/C15.py); for detonations nothing is left to scipy on the template side. *)
 From Coq Require Import Reals Lra Psatz.
+From Interval Require Import Tactic.
 From WG Require Import Lib.NumpySem Lib.HydroMatch Lib.HydroMatchTemplate.
 From GenC15 Require Import HydroGen C02Core.
 Local Open Scope R_scope.
@@ -177,16 +178,36 @@ Proof.
   replace (WL Tm - PL Tm + PL Tm) with (WL Tm) by ring. split; assumption.
 Qed.
 
-(** ** deflagrations / hybrids: what template.findMatching returns for its shooting root v+
-    is a zero of the general solver's residual [matching] *)
-Theorem template_matching_solves_general vw vp vp' vm Tp Tm Tpm0 :
-  ~ vJT < vw -> 0 < vw ->
-  0 < vp < 1 -> sqrt cb2 < 1 -> vw < 1 ->
-  t_findMatching_result et vw vp = (vp', vm, Tp, Tm) ->
+(** ** deflagrations / hybrids.  template.findMatching assembles, from its shooting root v+,
+    (v+, v-, T+ = Tn w^(1/mu), T- = _findTm) with w = wFromAlpha(alpha+(v+, v-)).  The theorem is
+    stated for an ARBITRARY enthalpy ratio w > 0 that belongs to alpha+ ([alpha_of], the exact
+    relation); [findMatching_result_is_assembly] says the code's result is this assembly for
+    w = t_wFromAlpha, and [wFromAlpha_close_to_exact] that t_wFromAlpha differs from the exact
+    w* = A/B by at most 1e-100 (1+|w|)/|B| (the regularisation written in the code), where
+    w* does satisfy [alpha_of] ([exact_w_alpha_of]).  (With the regularised t_wFromAlpha itself
+    the exact relation holds only at alpha+ = alpha_n -- audit/C15/Vacuity.v -- so it must not
+    be assumed of it.) *)
+Definition template_assembly (w vw vp : R) : R * R * R * R :=
+  let vm := Rmin (sqrt cb2) vw in
+  let Tp := Tn * Rpower w (1 / mu) in
+  (vp, vm, Tp, t__findTm et vm vp Tp).
+
+Lemma findMatching_result_is_assembly vw vp :
+  ~ vJT < vw ->
+  t_findMatching_result et vw vp =
+  template_assembly (t_wFromAlpha et ((vp / Rmin (sqrt cb2) vw - 1) *
+     (vp * Rmin (sqrt cb2) vw / cb2 - 1) / (1 - vp ^ 2) / 3)) vw vp.
+Proof.
+  intro HvJ. unfold t_findMatching_result, template_assembly.
+  cbn [et t_vJ]. destruct (Rlt_dec vJT vw) as [?|_]; [contradiction|].
+  cbv zeta. cbn [et t_cb t_cb2 t_Tnucl t_mu]. reflexivity.
+Qed.
+
+Theorem template_matching_solves_general w vw vp vp' vm Tp Tm Tpm0 :
+  0 < vw -> 0 < vp < 1 -> sqrt cb2 < 1 -> vw < 1 ->
+  template_assembly w vw vp = (vp', vm, Tp, Tm) ->
   let al := (vp / vm - 1) * (vp * vm / cb2 - 1) / (1 - vp ^ 2) / 3 in
-  0 < t_wFromAlpha et al ->
-  alpha_of wN alN cb2 cs2 al (wN * t_wFromAlpha et al) ->   (* exact inversion, see
-                                                               wFromAlpha_near_inverse *)
+  0 < w -> alpha_of wN alN cb2 cs2 al (wN * w) ->
   admissible eg Tp Tm ->
   vp' = vp /\ vm = Rmin (sqrt cb2) vw /\ vm ^ 2 = Rmin (vw ^ 2) cb2 /\
   conserved eg vp vm Tp Tm /\
@@ -195,10 +216,8 @@ Theorem template_matching_solves_general vw vp vp' vm Tp Tm Tpm0 :
   (TMinH < Tp < TMaxH -> TMinH < Tm < TMaxH ->
    matching_given eg vw vp Tpm0 (_mappingT eg (Tp, Tm)) = (0, 0)).
 Proof.
-  intros HvJ Hw0 Hp Hcb Hw1 Hres al Hwp Hal Hadm.
-  unfold t_findMatching_result in Hres.
-  cbn [et t_vJ] in Hres. destruct (Rlt_dec vJT vw) as [?|_]; [contradiction|].
-  cbv zeta in Hres. cbn [et t_cb t_cb2 t_Tnucl t_mu] in Hres.
+  intros Hw0 Hp Hcb Hw1 Hres al Hwp Hal Hadm.
+  unfold template_assembly in Hres. cbv zeta in Hres.
   apply tuple4_eq in Hres. destruct Hres as (E1 & E2 & E3 & E4).
   assert (Hsc : 0 < sqrt cb2) by (apply sqrt_lt_R0; exact Hcb2).
   assert (Hvm : 0 < vm < 1).
@@ -208,11 +227,10 @@ Proof.
     assert (Hs : sqrt cb2 ^ 2 = cb2) by (apply pow2_sqrt; lra).
     destruct (Rle_dec (sqrt cb2) vw) as [L|L]; destruct (Rle_dec (vw ^ 2) cb2) as [L'|L'];
       try reflexivity; try exact Hs; nra. }
-  subst vp'. rewrite E3 in E4. rewrite E2 in E3, E4. fold al in E3.
-  set (wp := t_wFromAlpha et al) in *.
+  subst vp'. rewrite E3 in E4. rewrite E2 in E4.
   assert (HTp : 0 < Tp).
   { rewrite <- E3. apply Rmult_lt_0_compat; [exact HTn|apply exp_pos]. }
-  assert (HWp : WH Tp = wN * wp).
+  assert (HWp : WH Tp = wN * w).
   { rewrite <- E3. apply Tp_from_w; assumption. }
   destruct (findTm_is_energy_flux vp vm Tp Hp Hvm HTp) as [HTm HE]. rewrite E4 in HTm, HE.
   assert (H20 : (vp - vm) * (vp * vm - cb2) = 3 * al * cb2 * vm * (1 - vp * vp)).
@@ -228,6 +246,29 @@ Proof.
   intros W1 W2.
   apply (exact_matching_is_root eg eg_enthalpyHigh eg_enthalpyLow vw vp vm Tp Tm Tpm0);
     try assumption; try (cbn [csqLowT eg]; exact Hvmsq).
+Qed.
+
+(** the exact enthalpy ratio belonging to alpha+ and its distance from the code's value *)
+Lemma exact_w_alpha_of al :
+  (1 - 3 * al) * mu - nu <> 0 ->
+  alpha_of wN alN cb2 cs2 al
+    (wN * (((1 - 3 * alN) * mu - nu) / ((1 - 3 * al) * mu - nu))).
+Proof. intro HB. unfold alpha_of. field. exact HB. Qed.
+
+Lemma wFromAlpha_close_to_exact al :
+  let A := (1 - 3 * alN) * mu - nu in let B := (1 - 3 * al) * mu - nu in
+  B <> 0 ->
+  Rabs (t_wFromAlpha et al - A / B)
+    <= (1 / 10 ^ 100) * (1 + Rabs (t_wFromAlpha et al)) / Rabs B.
+Proof.
+  intros A B HB.
+  pose proof (wFromAlpha_near_inverse et al) as N. cbv zeta in N.
+  cbn [et t_alN t_mu t_nu] in N. fold A B in N. specialize (N HB).
+  assert (HaB : 0 < Rabs B) by (apply Rabs_pos_lt; exact HB).
+  replace (t_wFromAlpha et al - A / B) with ((t_wFromAlpha et al * B - A) / B) by (field; exact HB).
+  unfold Rdiv at 1. rewrite Rabs_mult, Rabs_inv.
+  unfold Rdiv. apply Rmult_le_compat_r; [apply Rlt_le, Rinv_0_lt_compat; exact HaB|].
+  exact N.
 Qed.
 
 (** ** detonations: template.detonationVAndT solves the general residual [tmFromvpsq] and
@@ -329,11 +370,54 @@ Qed.
 
 End C15.
 
-(** the hypotheses are satisfiable: a bag-like template (cs2 = cb2 = 1/3) detonation *)
+(** the hypotheses are satisfiable by a GENUINE deflagration (v+ = 2/5 < vw = v- = 1/2, shock
+    heating w+ = 63/40 w_n): bag-like template cs2 = cb2 = 1/3, alpha_n = 1/20, psi_n = 9/10 *)
+Example deflagration_hypotheses_satisfiable :
+  let wN := 1 in let Tn := 1 in let alN := 1 / 20 in let psiN := 9 / 10 in
+  let cb2 := 1 / 3 in let cs2 := 1 / 3 in let vw := 1 / 2 in let vp := 2 / 5 in
+  let w := 63 / 40 in
+  let r := template_assembly wN Tn alN psiN cb2 cs2 1 0 w vw vp in
+  let vm := snd (fst (fst r)) in let Tp := snd (fst r) in let Tm := snd r in
+  let al := (vp / vm - 1) * (vp * vm / cb2 - 1) / (1 - vp ^ 2) / 3 in
+  0 < vw /\ 0 < vp < 1 /\ sqrt cb2 < 1 /\ vw < 1 /\ vm = 1 / 2 /\ vp < vm /\ Tn < Tp /\
+  0 < w /\ alpha_of wN alN cb2 cs2 al (wN * w) /\
+  admissible (eg wN Tn alN psiN cb2 cs2 10 (1 / 100) 0 1) Tp Tm.
+Proof.
+  cbv zeta.
+  assert (Hm : Rmin (sqrt (1 / 3)) (1 / 2) = 1 / 2) by (apply Rmin_right; interval).
+  unfold template_assembly. cbv zeta. cbn [fst snd]. rewrite Hm.
+  assert (Hal : (2 / 5 / (1 / 2) - 1) * (2 / 5 * (1 / 2) / (1 / 3) - 1) / (1 - (2 / 5) ^ 2) / 3
+                = 2 / 63) by field.
+  rewrite Hal.
+  repeat split; try lra; try interval.
+  - unfold alpha_of, mu_, nu_. field.
+  - unfold t__findTm. cbv zeta. cbn [et t_mu t_nu t_Tnucl t_psiN eg eHighT eLowT].
+    unfold eH, eL, pH, pL, wH, wL, eps_, mu_, nu_. first [apply Rgt_not_eq; interval | apply Rlt_not_eq; interval].
+  - unfold t__findTm. cbv zeta. cbn [et t_mu t_nu t_Tnucl t_psiN eg eHighT pLowT].
+    unfold eH, pH, pL, wH, wL, eps_, mu_, nu_. interval.
+  - unfold t__findTm. cbv zeta. cbn [et t_mu t_nu t_Tnucl t_psiN eg eLowT pHighT].
+    unfold eL, pH, pL, wH, wL, eps_, mu_, nu_. interval.
+Qed.
+
+(** ... and by a genuine detonation: vw = 9/10 > vJ, all five hypotheses of
+    [template_deton_solves_general] instantiated *)
 Example deton_hypotheses_satisfiable :
-  exists alN vw : R, 0 < vw < 1 /\
-    0 <= (vw ^ 2 + (1/3) * (1 - 3 * (1 - vw ^ 2) * alN)) ^ 2 - 4 * (1/3) * vw ^ 2.
-Proof. exists (1/100), (9/10). split; lra. Qed.
+  let wN := 1 in let Tn := 1 in let alN := 1 / 100 in let psiN := 9 / 10 in
+  let cb2 := 1 / 3 in let cs2 := 1 / 3 in let vw := 9 / 10 in
+  let r := t_detonationVAndT (et wN Tn alN psiN cb2 cs2 (7 / 10) 0) vw in
+  let vm := snd (fst (fst r)) in let Tp := snd (fst r) in let Tm := snd r in
+  0 < vw < 1 /\
+  0 <= (vw ^ 2 + cb2 * (1 - 3 * (1 - vw ^ 2) * alN)) ^ 2 - 4 * cb2 * vw ^ 2 /\
+  0 < vm < 1 /\ admissible (eg wN Tn alN psiN cb2 cs2 10 (1 / 100) 0 1) Tp Tm.
+Proof.
+  cbv zeta. unfold t_detonationVAndT, t__findTm. cbv zeta.
+  cbn [fst snd et t_cb2 t_alN t_Tnucl t_mu t_nu t_psiN]. unfold mu_, nu_.
+  repeat split; try lra; try interval.
+  - cbn [eg eHighT eLowT]. unfold eH, eL, pH, pL, wH, wL, eps_, mu_, nu_.
+    first [apply Rgt_not_eq; interval | apply Rlt_not_eq; interval].
+  - cbn [eg eHighT pLowT]. unfold eH, pH, pL, wH, wL, eps_, mu_, nu_. interval.
+  - cbn [eg eLowT pHighT]. unfold eL, pH, pL, wH, wL, eps_, mu_, nu_. interval.
+Qed.
 
 (** ------------------------------------------------------------------------------ *)
 Theorem C15_template_init_recovers : forall wN Tn alN psiN cb2 cs2,
@@ -376,14 +460,12 @@ Print Assumptions C15_findTm_is_energy_flux.
 
 Theorem C15_template_matching_solves_general : forall wN Tn alN psiN cb2 cs2,
   0 < wN -> 0 < Tn -> 0 < cb2 -> 0 < cs2 -> 0 < psiN ->
-  forall TMaxH TMinH vMinG vJG vJT vMinT vw vp vp' vm Tp Tm Tpm0,
+  forall TMaxH TMinH vMinG vJG vJT vMinT w vw vp vp' vm Tp Tm Tpm0,
   let EG := eg wN Tn alN psiN cb2 cs2 TMaxH TMinH vMinG vJG in
-  let ET := et wN Tn alN psiN cb2 cs2 vJT vMinT in
-  ~ vJT < vw -> 0 < vw -> 0 < vp < 1 -> sqrt cb2 < 1 -> vw < 1 ->
-  t_findMatching_result ET vw vp = (vp', vm, Tp, Tm) ->
+  0 < vw -> 0 < vp < 1 -> sqrt cb2 < 1 -> vw < 1 ->
+  template_assembly wN Tn alN psiN cb2 cs2 vJT vMinT w vw vp = (vp', vm, Tp, Tm) ->
   let al := (vp / vm - 1) * (vp * vm / cb2 - 1) / (1 - vp ^ 2) / 3 in
-  0 < t_wFromAlpha ET al ->
-  alpha_of wN alN cb2 cs2 al (wN * t_wFromAlpha ET al) ->
+  0 < w -> alpha_of wN alN cb2 cs2 al (wN * w) ->
   admissible EG Tp Tm ->
   vp' = vp /\ vm = Rmin (sqrt cb2) vw /\ vm ^ 2 = Rmin (vw ^ 2) cb2 /\
   conserved EG vp vm Tp Tm /\
@@ -391,8 +473,30 @@ Theorem C15_template_matching_solves_general : forall wN Tn alN psiN cb2 cs2,
   fst (vpvmAndvpovm EG Tp Tm) / snd (vpvmAndvpovm EG Tp Tm) = vm ^ 2 /\
   (TMinH < Tp < TMaxH -> TMinH < Tm < TMaxH ->
    matching_given EG vw vp Tpm0 (_mappingT EG (Tp, Tm)) = (0, 0)).
-Proof. intros. subst EG ET al. eapply template_matching_solves_general; eassumption. Qed.
+Proof. intros. subst EG al. eapply template_matching_solves_general; eassumption. Qed.
 Print Assumptions C15_template_matching_solves_general.
+
+Theorem C15_findMatching_result_is_assembly : forall wN Tn alN psiN cb2 cs2 vJT vMinT vw vp,
+  ~ vJT < vw ->
+  t_findMatching_result (et wN Tn alN psiN cb2 cs2 vJT vMinT) vw vp =
+  template_assembly wN Tn alN psiN cb2 cs2 vJT vMinT
+    (t_wFromAlpha (et wN Tn alN psiN cb2 cs2 vJT vMinT)
+       ((vp / Rmin (sqrt cb2) vw - 1) * (vp * Rmin (sqrt cb2) vw / cb2 - 1) / (1 - vp ^ 2) / 3))
+    vw vp.
+Proof. intros. apply findMatching_result_is_assembly. assumption. Qed.
+Print Assumptions C15_findMatching_result_is_assembly.
+
+Theorem C15_wFromAlpha_close_to_exact : forall wN Tn alN psiN cb2 cs2 vJT vMinT al,
+  let A := (1 - 3 * alN) * mu_ cs2 - nu_ cb2 in let B := (1 - 3 * al) * mu_ cs2 - nu_ cb2 in
+  B <> 0 ->
+  alpha_of wN alN cb2 cs2 al (wN * (A / B)) /\
+  Rabs (t_wFromAlpha (et wN Tn alN psiN cb2 cs2 vJT vMinT) al - A / B)
+    <= (1 / 10 ^ 100) * (1 + Rabs (t_wFromAlpha (et wN Tn alN psiN cb2 cs2 vJT vMinT) al))
+       / Rabs B.
+Proof.
+  intros. split; [apply exact_w_alpha_of; assumption|apply wFromAlpha_close_to_exact; assumption].
+Qed.
+Print Assumptions C15_wFromAlpha_close_to_exact.
 
 Theorem C15_template_deton_solves_general : forall wN Tn alN psiN cb2 cs2,
   0 < wN -> 0 < Tn -> 0 < cb2 -> 0 < cs2 -> 0 < psiN ->
@@ -425,3 +529,6 @@ Theorem C15_template_boundaries_equal : forall wN Tn alN psiN cb2 cs2,
   findHydroBoundaries (eg wN Tn alN psiN cb2 cs2 TMaxH TMinH vMinG vJG) vw vp vm Tp Tm.
 Proof. intros. apply template_boundaries_equal; assumption. Qed.
 Print Assumptions C15_template_boundaries_equal.
+
+Print Assumptions deflagration_hypotheses_satisfiable.
+Print Assumptions deton_hypotheses_satisfiable.
